@@ -19,6 +19,49 @@ fn usage() -> ! {
     std::process::exit(2);
 }
 
+/// Watchdog: an execution that does not return within VERIF_HANG_S seconds (default 90) is a
+/// hang. For C15 ("every public call terminates") that is a violation with the recorded case as
+/// replay file; for every other check it is a machinery error (exit 3).
+fn spawn_watchdog(prop: String, replay_path: Option<String>) {
+    let limit_ms: u64 = std::env::var("VERIF_HANG_S").ok().and_then(|s| s.parse().ok()).unwrap_or(90) * 1000;
+    std::thread::spawn(move || {
+        loop {
+            std::thread::sleep(std::time::Duration::from_millis(1000));
+            let now = drive::now_ms();
+            let hearts: Vec<std::sync::Arc<drive::Heart>> = drive::HEARTS.lock().unwrap().clone();
+            for h in hearts {
+                let b = h.busy_since_ms.load(std::sync::atomic::Ordering::Relaxed);
+                if b != 0 && now.saturating_sub(b) > limit_ms {
+                    let case = h.case.lock().unwrap().clone();
+                    if prop == "C15" {
+                        let path = replay_path.clone().unwrap_or_else(|| {
+                            let root = std::env::var("VERIF_ROOT").unwrap_or_else(|_| "/verif".into());
+                            let dir = format!("{root}/replays/C15");
+                            let _ = std::fs::create_dir_all(&dir);
+                            let path = format!("{dir}/hang.json");
+                            let body = match &case {
+                                Some((cfg, chunks)) => serde_json::json!({"property": "C15", "message": "hang", "case": {"kind": "hang", "cfg": **cfg, "chunks_hex": chunks.iter().map(|c| explore::hex(c)).collect::<Vec<_>>()}}),
+                                None => serde_json::json!({"property": "C15", "message": "hang", "case": {"kind": "hang-unrecorded"}}),
+                            };
+                            let _ = std::fs::write(&path, serde_json::to_string_pretty(&body).unwrap());
+                            path
+                        });
+                        println!(
+                            "VIOLATION property=C15 replay={path} :: a call into the rewriter did not return within {} s (hang){}",
+                            limit_ms / 1000,
+                            case.map(|(cfg, chunks)| format!(": config {} writes {:?}", cfg.label(), chunks.iter().map(|c| explore::lossy(&c[..c.len().min(40)])).collect::<Vec<_>>())).unwrap_or_default()
+                        );
+                        std::process::exit(1);
+                    } else {
+                        println!("MACHINERY-ERROR: an execution did not return within {} s (hang); this check cannot continue (C15 decides termination)", limit_ms / 1000);
+                        std::process::exit(3);
+                    }
+                }
+            }
+        }
+    });
+}
+
 fn main() {
     let args: Vec<String> = std::env::args().skip(1).collect();
     if args.is_empty() {
@@ -60,6 +103,10 @@ fn main() {
         eprintln!("unknown property {prop}");
         std::process::exit(2);
     };
+    if prop == "C15" {
+        drive::TRACK_CASES.store(true, std::sync::atomic::Ordering::Relaxed);
+    }
+    spawn_watchdog(prop.clone(), replay.clone());
     if let Some(path) = replay {
         let body = std::fs::read_to_string(&path).expect("read replay file");
         let v: serde_json::Value = serde_json::from_str(&body).expect("parse replay file");
